@@ -5,11 +5,12 @@ pub mod c09;
 pub mod c10;
 pub mod c11;
 pub mod c12;
+pub mod c16;
 
 use crate::engine::Prop;
 
 pub fn all() -> Vec<&'static dyn Prop> {
-    vec![&c01::C01, &c05::C05, &c08::C08, &c09::C09, &c10::C10, &c11::C11, &c12::C12]
+    vec![&c01::C01, &c05::C05, &c08::C08, &c09::C09, &c10::C10, &c11::C11, &c12::C12, &c16::C16]
 }
 
 pub fn find(id: &str) -> Option<&'static dyn Prop> {
